@@ -118,6 +118,11 @@ fn text(r: &mut Rng, out: &mut Vec<u8>, n: &mut usize, entities: bool) {
         out.extend_from_slice(b"<![CDATA[]]>");
         return;
     }
+    if r.chance(1, 16) {
+        // character data that looks like markup
+        out.extend_from_slice(format!("<![CDATA[<a b=\"c{:03}\">not markup</a><!-- nor this -->]]>", n).as_bytes());
+        return;
+    }
     match r.below(4) {
         0 => out.extend_from_slice(format!("<![CDATA[c{:03}]]>", n).as_bytes()),
         1 => out.extend_from_slice(format!("t{:03} &amp; more", n).as_bytes()),
@@ -385,7 +390,7 @@ pub fn hint_paths_doc(which: usize) -> Vec<u8> {
 
 /// Sizes at which a fixed-width counter, bit set, recursion guard or small-buffer optimisation would change its
 /// behaviour: one below, at, and one or two above the powers of two up to 256 (plus a few larger ones).
-pub const BOUNDARIES: &[usize] = &[15, 16, 17, 31, 32, 33, 63, 64, 65, 66, 127, 128, 129, 255, 256, 257, 258, 300];
+pub const BOUNDARIES: &[usize] = &[15, 16, 17, 31, 32, 33, 63, 64, 65, 66, 100, 127, 128, 129, 255, 256, 257, 258, 300];
 
 /// the kinds of boundary sessions
 pub const BOUNDARY_KINDS: usize = 7;
